@@ -42,6 +42,9 @@ pub struct Profile {
     pub p_resubmit: (u64, u64),
     /// a commit right before a reorg (the history rows the reorg needs were just pruned by that commit)
     pub p_commit_before_reorg: (u64, u64),
+    /// a block under construction that holds nothing but a parked (future-nonce) signed transaction, a commit -
+    /// which the engine accepts, nothing was accepted into the block - and then a loss of caches
+    pub p_park_commit: (u64, u64),
 }
 
 impl Default for Profile {
@@ -72,6 +75,7 @@ impl Default for Profile {
             signed_chaos: false,
             p_resubmit: (1, 2),
             p_commit_before_reorg: (0, 1),
+            p_park_commit: (0, 1),
         }
     }
 }
@@ -497,6 +501,24 @@ impl<'a> Gen<'a> {
             };
             if do_commit {
                 ops.push(Op::Commit);
+                since_commit = 0;
+            }
+            if self.chance(self.p.p_park_commit) {
+                let id = self.id();
+                self.ts += 1;
+                let tx = Tx {
+                    id,
+                    kind: TxKind::Transact { signer: self.rng.below(3) as u8, nonce: NonceSpec::Rel(self.rng.range(1, 3) as i64), to: Some(Target::Contract(0)), data: Cd::Sload(1), deploy: None, chain_ok: true },
+                    len: LenPolicy::Generous,
+                    enc: Enc::Hex,
+                };
+                ops.push(Op::Block { ts: self.ts, hash: HashMode::Zero, txs: vec![tx], finalise: false });
+                ops.push(Op::Commit);
+                match self.rng.below(3) {
+                    0 => ops.push(Op::ClearCaches),
+                    1 => ops.push(Op::Restart { commit_first: false }),
+                    _ => {}
+                }
                 since_commit = 0;
             }
             if self.chance(self.p.p_clear) {
